@@ -1,7 +1,8 @@
 (** C10 — Results do not depend on how the index was built.
     Model: Model/BuilderFlow.v (Builder.Add/flush partition, sortDocuments, pooled postingsBuilder with reset,
     what writePostings emits). Proofs: Proofs/BuilderFlow.v, Proofs/BuilderPostings.v. *)
-From ZV Require Import Lib.Base Model.BuilderFlow Proofs.BuilderFlow Proofs.BuilderPostings.
+From ZV Require Import Lib.Base Model.BuilderFlow Proofs.BuilderFlow Proofs.BuilderPostings Proofs.BuilderSort.
+From Coq Require Import Sorting.Sorted.
 From Coq Require Import Permutation.
 
 (** (1) Every added document lands in exactly one shard — stronger: the shards, in shard-number order, spell the
@@ -27,6 +28,15 @@ Theorem C10_sort_is_permutation :
 Proof. intros. apply sort_docs_perm. Qed.
 Print Assumptions C10_sort_is_permutation.
 
+(** (3') The order is determined by the rank vectors alone: ANY arrangement of the ranked documents that is sorted
+    w.r.t. the rank comparison (whatever algorithm produced it — sort.Slice is not stable) is the model's order. Holds because
+    the last rank component is the original index, which makes the comparison a strict total order. *)
+Theorem C10_sort_deterministic :
+  forall (A : Type) (key : A -> dkey) (l : list A) (l' : list (list Z * A)),
+    Permutation l' (rank_all key l 0) -> StronglySorted (rle (A:=A)) l' -> map snd l' = sort_docs key l.
+Proof. intros. apply sort_deterministic; assumption. Qed.
+Print Assumptions C10_sort_deterministic.
+
 (** (4) Stale-buffer freedom. Whatever a pooled postingsBuilder went through before (any sequence of documents and
     resets), after reset() it writes, for ANY list of documents, exactly the (ngram, posting data) pairs a fresh builder
     writes — same set, no ngram twice — and the same runeOffsets / endRunes / isPlainASCII / counters.
@@ -41,6 +51,15 @@ Theorem C10_reuse_after_reset_writes_same :
     pb_scalars s' = pb_scalars f'.
 Proof. intros st docs Hr. apply reuse_writes_same, reachable_Inv, Hr. Qed.
 Print Assumptions C10_reuse_after_reset_writes_same.
+
+(** (4') ... hence the sorted (ngram, posting) list writePostings emits is identical, element for element. *)
+Theorem C10_reuse_after_reset_writes_identical :
+  forall (st : pbuilder) (docs : list rdoc),
+    reachable st ->
+    sort_ng (written (add_strings (reset_pb st) docs)) = sort_ng (written (add_strings fresh_pb docs)) /\
+    pb_scalars (add_strings (reset_pb st) docs) = pb_scalars (add_strings fresh_pb docs).
+Proof. intros st docs Hr. apply reuse_writes_identical, reachable_Inv, Hr. Qed.
+Print Assumptions C10_reuse_after_reset_writes_identical.
 
 (** (5) Configuration independence of result sets. HYPOTHESIS (explicit): searching a shard is document-local —
     its result is, up to order, the union over the shard's documents of what each document contributes
